@@ -50,6 +50,7 @@ void operator delete[](void* p, std::size_t) noexcept { free(p); }
 
 using benum::Args;
 static benum::Counters C;
+static bool g_stash_only = false;    // --subset stash: the ItemStash jobs of the sanitizer subset (build with hook H9: 256-byte stash buffer)
 static std::string g_build_tag;      // " [asan+assert build]" when this executable is the sanitizer build: its bounds and counters are kept apart
 
 template <class X> static std::string num(X v) { return std::to_string(v); }
@@ -963,7 +964,7 @@ static void part_relmap(const Args& a) {
 // ------------------------------------------------------------------------------------------------
 static void part_jobs(const Args& a, bool asan_subset) {
     std::vector<Job> J = make_jobs(a.thorough);
-    if (asan_subset) { std::vector<Job> K; for (auto& j : J) if (j.asan) K.push_back(j); J.swap(K); }
+    if (asan_subset) { std::vector<Job> K; for (auto& j : J) if (j.asan && (!g_stash_only || j.area.find("stash") != std::string::npos)) K.push_back(j); J.swap(K); }
     // expensive jobs first, then deal them out round robin
     std::stable_sort(J.begin(), J.end(), [](const Job& x, const Job& y) { return x.cost > y.cost; });
     for (size_t i = 0; i < J.size(); ++i) {
@@ -1004,7 +1005,8 @@ int main(int argc, char** argv) {
     std::string part, subset;
     for (size_t i = 0; i + 1 < a.rest.size(); ++i) { if (a.rest[i] == "--part") part = a.rest[i + 1]; if (a.rest[i] == "--subset") subset = a.rest[i + 1]; }
     if (subset == "asan") g_build_tag = " [asan+assert build]";
-    if (part == "jobs") part_jobs(a, subset == "asan");
+    if (subset == "stash") { g_build_tag = " [asan+assert build, 256-byte stash buffer]"; g_stash_only = true; }
+    if (part == "jobs") part_jobs(a, subset == "asan" || subset == "stash");
     else if (part == "relmap") part_relmap(a);
     else if (part == "list") { for (auto& j : make_jobs(a.thorough)) printf("%s\n", j.name.c_str()); return 0; }
     else { fprintf(stderr, "unknown part\n"); return 2; }
